@@ -1,6 +1,7 @@
 package props
 
 import (
+	"context"
 	"encoding/json"
 	"fmt"
 	"os"
@@ -10,6 +11,7 @@ import (
 	"sort"
 	"strings"
 	"sync"
+	"time"
 
 	"github.com/junioryono/godi/v4/verifmc/mc"
 )
@@ -107,15 +109,26 @@ func auxRaceJob(tier string) mc.Job {
 				defer wg.Done()
 				sem <- struct{}{}
 				defer func() { <-sem }()
-				cmd := exec.Command(bin, p, fmt.Sprint(iters))
+				// free-running code can hang for good (a real deadlock): bound the wait. The bound is not an
+				// oracle - a program that does not finish is only noted; deadlocks are the explorer's subject
+				ctx, cancel := context.WithTimeout(context.Background(), 3*time.Minute)
+				defer cancel()
+				cmd := exec.CommandContext(ctx, bin, p, fmt.Sprint(iters))
 				cmd.Env = append(os.Environ(), "GORACE=halt_on_error=0 log_path="+filepath.Join(dir, p), "GOMAXPROCS=4")
 				b, err := cmd.CombinedOutput()
+				if ctx.Err() != nil {
+					err = fmt.Errorf("did not finish within 3 minutes")
+				}
 				results[i] = res{p, err, string(b)}
 			}(i, p)
 		}
 		wg.Wait()
 		total := 0
 		for _, rs := range results {
+			if rs.err != nil && strings.Contains(rs.err.Error(), "did not finish") {
+				r.Notes = append(r.Notes, fmt.Sprintf("auxiliary -race pass: free-running program %s %v (no verdict is drawn from this)", rs.prog, rs.err))
+				continue
+			}
 			if rs.err != nil && !strings.Contains(rs.err.Error(), "exit status 66") {
 				r.MachErr = append(r.MachErr, fmt.Sprintf("racecheck %s failed: %v %s", rs.prog, rs.err, firstLine(rs.out)))
 				continue
